@@ -112,7 +112,9 @@ func (p *Perturb) HoldNth(cmp string, n int) (release func(), held func() bool) 
 	return func() {
 			once.Do(func() {
 				p.mu.Lock()
-				delete(p.nth, cmp)
+				if p.nth[cmp] == h { // (a later HoldNth on the same component stays)
+					delete(p.nth, cmp)
+				}
 				p.mu.Unlock()
 				close(h.ch)
 			})
